@@ -141,3 +141,10 @@ Print Assumptions C06_slots_lookup_total.
 Theorem C06_circulation_feasible_for_distributed_slots : stmt_circulation_feasible_distributed.
 Proof. exact circulation_feasible_distributed. Qed.
 Print Assumptions C06_circulation_feasible_for_distributed_slots.
+
+(** "conforms to the documented input format (references resolve, ...)" on the instance AS LISTED (RawLoad.v): such a listing
+    resolves, and loading it never panics. *)
+From RS Require Import RawLoad RawLoadStmts RawLoadFacts.
+Theorem C06_loading_a_valid_listing_never_panics : stmt_load_raw_total.
+Proof. exact load_raw_total. Qed.
+Print Assumptions C06_loading_a_valid_listing_never_panics.
